@@ -551,6 +551,10 @@ def r_sortshape(f):
                 R.fail(b.ident, "s4:rows", "%s does not apply the column swap trace inside a plain iteration over all of rows_mut() (%s): columns would not move whole" % (b.ident, why), b.where())
         else:
             sr = [(bi, t, fn) for bi, t, fn in b.calls() if fn and fn["name"] == "swap_rows"]
+            # .. or inside a closure handed to for_each over the swap trace
+            sr += [(bi, t, fn) for bi, t, fn in b.calls() if fn and fn["name"] in ("for_each", "try_for_each") and any(
+                x[0] == "agg" and x[1] == "closure" and len(x) > 3 and any(fn2 and fn2["name"] == "swap_rows" for c in f.fn_bodies if c.kind == "Closure" and c.id == x[3] for _, _, fn2 in c.calls())
+                for a in t["args"] for x in _shallow(d.expr(a)))]
             okk = bool(sr)
             R.inst(b.ident, "s4 swap trace applied with swap_rows (%d call site)" % len(sr), okk)
             if not okk:
@@ -558,7 +562,14 @@ def r_sortshape(f):
         # s5: every call into caller code precedes the first write to the array
         n += 1
         dom = b.dominators()
-        writes = [bi for bi, t, fn in b.calls() if fn and fn["name"] in ("rows_mut", "swap_rows", "swap_cols", "swap", "index_mut", "col_mut", "cells_mut", "row_pair_mut", "get_unchecked_row_mut", "get_unchecked_mut", "view_mut", "fill")]
+        WR_ = ("rows_mut", "swap_rows", "swap_cols", "swap", "index_mut", "col_mut", "cells_mut", "row_pair_mut", "get_unchecked_row_mut", "get_unchecked_mut", "view_mut", "fill")
+        writes = [bi for bi, t, fn in b.calls() if fn and fn["name"] in WR_]
+        # a call that receives a closure of this function which writes to the array writes to the array
+        for bi, t, fn in b.calls():
+            for a in t["args"]:
+                for x in _shallow(d.expr(a)):
+                    if x[0] == "agg" and x[1] == "closure" and len(x) > 3 and any(fn2 and fn2["name"] in WR_ for c in f.fn_bodies if c.kind == "Closure" and (c.id == x[3] or c.id.startswith(x[3] + "::")) for _, _, fn2 in c.calls()):
+                        if bi not in writes: writes.append(bi)
         sort_blocks = [bi for bi, _, _ in std]
         # the precise statement: no block that runs the caller's comparator (the side sort, or a direct call) is reachable
         # from a block that has written to the array
